@@ -182,6 +182,7 @@ MatchesTag(M, v) ==
     [] M[1] \in {"newtype", "alias695"} -> MatchesTag(M[3], v)
     [] M[1] \in {"final", "annotated"} -> MatchesTag(M[2], v)
     [] M[1] \in {"fwd", "tvarc", "tvarb"} -> MatchesTag(M[3], v)
+    [] M[1] = "rec695" -> MatchesTag(M[4], v)
     [] OTHER -> FALSE
 
 PackMembers(Ms, cx, v, i) ==
@@ -279,6 +280,7 @@ PackB(T, cx, v) ==
     \* The library converts what _serialize returns / what _deserialize receives by the annotation A
     [] T[1] = "stype" -> IF v[1] = "sobj" THEN Pack(T[3], cx, v[3]) ELSE <<"#illtyped">>
     [] T[1] \in {"final", "annotated"} -> Pack(T[2], cx, v)
+    [] T[1] = "rec695" -> Pack(T[4], cx, v)
     [] T[1] \in {"fwd", "tvarc", "tvarb"} -> Pack(T[3], cx, v)          \* forward reference <<"fwd", name, T>>: the class is defined later, same meaning
     [] T[1] = "dc" -> PackDC(T, cx, v)
 
